@@ -5,10 +5,11 @@ set -e
 cd "$(dirname "$0")"
 /venv/bin/python -c "
 import sys; sys.path.insert(0, '.')
-from harness import common, gen_tables
+from harness import common, gen_tables, gen_src
 ctx = common.Ctx('C00', 'quick', 0)
 common.make_scratch(ctx)
 print(gen_tables.generate(ctx))
+print(gen_src.generate(ctx))
 "
 cd coq
 rm -f Makefile Makefile.conf .Makefile.d
